@@ -106,6 +106,22 @@ impl<'r> Gen<'r> {
         }
     }
 
+    /// like pick_some, but a list may name the same object more than once (legal in lists of
+    /// measuring channels, dependent characteristics, map lists, frame measurements, ...)
+    fn pick_some_rep(&mut self, list: &[String], max: usize) -> Vec<String> {
+        let mut out = self.pick_some(list, max);
+        if !out.is_empty() && self.rng.chance(1, 3) {
+            let again = out[self.rng.below(out.len())].clone();
+            let at = self.rng.below(out.len() + 1);
+            out.insert(at, again);
+            if self.rng.chance(1, 3) {
+                let again = out[0].clone();
+                out.push(again);
+            }
+        }
+        out
+    }
+
     fn pick_some(&mut self, list: &[String], max: usize) -> Vec<String> {
         let mut out: Vec<String> = Vec::new();
         if list.is_empty() {
@@ -228,7 +244,13 @@ impl<'r> Gen<'r> {
                 3 => ConversionType::Form,
                 _ => ConversionType::RatFunc,
             };
-            let mut cm = CompuMethod::new(name.clone(), self.mk_text(), ct, "%6.2".into(), "unit".into());
+            // the unit text of a COMPU_METHOD is free text; it is often the name of a UNIT
+            let unit_text = if self.rng.chance(1, 3) && !units.is_empty() {
+                units[self.rng.below(units.len())].clone()
+            } else {
+                "unit".to_string()
+            };
+            let mut cm = CompuMethod::new(name.clone(), self.mk_text(), ct, "%6.2".into(), unit_text);
             match choice {
                 1 => cm.coeffs_linear = Some(CoeffsLinear::new(2.0, 1.0)),
                 2 => {
@@ -319,7 +341,7 @@ impl<'r> Gen<'r> {
                 }
             }
             if self.want() {
-                let l = self.pick_some(&meas, 2);
+                let l = self.pick_some_rep(&meas, 2);
                 let mut v = Virtual::new();
                 v.measuring_channel_list = l;
                 x.var_virtual = Some(v);
@@ -379,16 +401,16 @@ impl<'r> Gen<'r> {
             }
             if self.want() {
                 let mut d = DependentCharacteristic::new("X1".into());
-                d.characteristic_list = self.pick_some(&chars, 2);
+                d.characteristic_list = self.pick_some_rep(&chars, 2);
                 x.dependent_characteristic = Some(d);
             } else if self.want() {
                 let mut d = VirtualCharacteristic::new("X1".into());
-                d.characteristic_list = self.pick_some(&chars, 2);
+                d.characteristic_list = self.pick_some_rep(&chars, 2);
                 x.virtual_characteristic = Some(d);
             }
             if self.want() {
                 let mut ml = MapList::new();
-                ml.name_list = self.pick_some(&chars, 2);
+                ml.name_list = self.pick_some_rep(&chars, 2);
                 x.map_list = Some(ml);
             }
             if self.want() {
@@ -496,6 +518,17 @@ impl<'r> Gen<'r> {
             }
             m.instance.push(x);
         }
+        // names live in separate namespaces: an INSTANCE may be called like a TYPEDEF_CHARACTERISTIC
+        // (of which it is not an instance)
+        if self.rng.chance(1, 5) && !td_char.is_empty() {
+            let other_types: Vec<String> = td_meas.iter().chain(td_blob.iter()).cloned().collect();
+            if let Some(t) = self.pick(&other_types) {
+                let name = td_char[self.rng.below(td_char.len())].clone();
+                if !m.instance.contains_key(&name) {
+                    m.instance.push(Instance::new(name, self.mk_text(), t, 0x6000));
+                }
+            }
+        }
         // ---- FUNCTION
         for (i, name) in funcs.iter().enumerate() {
             let mut x = Function::new(name.clone(), self.mk_text());
@@ -576,7 +609,7 @@ impl<'r> Gen<'r> {
             let mut x = Frame::new(name.clone(), self.mk_text(), 1, 10);
             if self.want() {
                 let mut l = FrameMeasurement::new();
-                l.identifier_list = self.pick_some(&meas, 3);
+                l.identifier_list = self.pick_some_rep(&meas, 3);
                 x.frame_measurement = Some(l);
             }
             m.frame.push(x);
